@@ -206,7 +206,8 @@ theorem process_then_commit_adds_nothing (s s' : Suite) (b : Int) (g : Bool) (af
 
 /-! ## the same clause with the FieldMapper modelled: `TestSuite.process` with a scripted processor
 
-`processM sch s b g script` (Mapper.lean): the input rows are read up front, item `k` is answered by
+`processM sch s b g script sel` (Mapper.lean): the selector is checked, the affected relations are cleared, the
+input rows are read up front, item `k` is answered by
 `script[k % len(script)]` (results, chart edges, run, scalar entries), `FieldMapper.map/cleanup` turn the
 responses into rows of parse / result / edge / run (live key lists), every row goes through `_add_row`
 (flush through `commit` whenever more than `b` rows are pending), then `write_database` and `reload`. -/
@@ -217,23 +218,23 @@ rows per item plus the final run group, and every table shows AND stores exactly
 (none for the relations processing invalidates) followed by the rows produced for it, in order, each
 once — whatever flushes happened in between. -/
 theorem processM_exactly_once (sch : Schema) (s s' : Suite) (b : Int) (g : Bool) (script : List Resp)
-    (h : L.AllAligned s) (hp : processM sch s b g script = (s', none)) :
-    ∃ inFields items gs, processInput sch s = .ok (inFields, items)
+    (sel : Option (String × String)) (h : L.AllAligned s) (hp : processM sch s b g script sel = (s', none)) :
+    ∃ inFields items gs, processInput sch (clearAt s (affectedIdx sch)) sel = .ok (inFields, items)
       ∧ producedGroups sch inFields script items = (gs, none)
       ∧ gs.length = items.length + 1
       ∧ ∀ j, L.content s' j = (if (affectedIdx sch).contains j then [] else L.content s j) ++ L.rowsFor j gs.flatten
            ∧ L.stored s' j = (if (affectedIdx sch).contains j then [] else L.content s j) ++ L.rowsFor j gs.flatten := by
-  obtain ⟨inFields, items, gs, hi, hg, hproc⟩ := L.processM_ok sch s s' b g script hp
+  obtain ⟨inFields, items, gs, hi, hg, hproc⟩ := L.processM_ok sch s s' b g script sel hp
   exact ⟨inFields, items, gs, hi, hg, (L.producedGroups_spec sch inFields script items gs hg).1,
     fun j => L.process_content s s' b g _ _ h hproc j⟩
 
 /-- after `process`: memory = disk and `in_transaction` is false for every table, and a commit
 afterwards changes nothing (and so does a second one: `commit_idempotent`). -/
 theorem processM_synchronized (sch : Schema) (s s' : Suite) (b : Int) (g : Bool) (script : List Resp)
-    (hp : processM sch s b g script = (s', none)) :
+    (sel : Option (String × String)) (hp : processM sch s b g script sel = (s', none)) :
     (∀ t ∈ s', abs t = t.file ∧ inTransaction t = false ∧ Aligned t) ∧ inTransactionS s' = false
     ∧ commitAll s' = (s', none) := by
-  obtain ⟨_, _, gs, _, _, hproc⟩ := L.processM_ok sch s s' b g script hp
+  obtain ⟨_, _, gs, _, _, hproc⟩ := L.processM_ok sch s s' b g script sel hp
   have h1 := process_synchronized s s' b g _ _ hproc
   refine ⟨h1, ?_, process_then_commit_adds_nothing s s' b g _ _ hproc⟩
   simp only [inTransactionS, List.any_eq_false]
@@ -244,10 +245,10 @@ theorem processM_synchronized (sch : Schema) (s s' : Suite) (b : Int) (g : Bool)
 showed before `process` — uncommitted appends included, each once — and they are on disk afterwards
 (so the following commit neither loses nor repeats them). -/
 theorem processM_unaffected_kept (sch : Schema) (s s' : Suite) (b : Int) (g : Bool) (script : List Resp)
-    (h : L.AllAligned s) (hp : processM sch s b g script = (s', none))
+    (sel : Option (String × String)) (h : L.AllAligned s) (hp : processM sch s b g script sel = (s', none))
     (j : Nat) (t : TableS) (hj : sch[j]? = some t) (hn : c10AffectedTables.contains t.name = false) :
     L.content s' j = L.content s j ∧ L.stored s' j = L.content s j := by
-  obtain ⟨inFields, items, gs, _, hg, hproc⟩ := L.processM_ok sch s s' b g script hp
+  obtain ⟨inFields, items, gs, _, hg, hproc⟩ := L.processM_ok sch s s' b g script sel hp
   have hc := L.process_content s s' b g _ _ h hproc j
   have hna : (affectedIdx sch).contains j = false := by
     rw [Bool.eq_false_iff]
